@@ -405,6 +405,30 @@ func c05Run(c *hx.Ctx) {
 			c05Eval(c, k, 0, "rate-ladder")
 		}
 	}
+	// Rate at and above the top of the ladder (layersFromRateLevels = 1: the extra lossless layer must still be
+	// added), and explicit NumLayers below the ladder length with an active rate ladder (LayerRates longer than
+	// NumLayers: the last layer must still be made lossless)
+	ladder := []int{1280, 640, 320, 160, 80, 40, 20, 10, 5}
+	for _, rate := range []int{1279, 1280, 1281, 2000, 5000} {
+		for _, lv := range [][]int{ladder, {100, 50, 10}, nil} {
+			for _, wh := range [][2]int{{24, 24}, {64, 48}, {7, 90}} {
+				for _, generic := range []bool{false, true} {
+					k := c05Case{W: wh[0], H: wh[1], BA: 8, BS: 8, SPP: 1, PR: 0, Frames: 1, Syntax: 90,
+						Par: c05Par{Generic: generic, NumLevels: 3, NumLayers: 1, AllowMCT: true, Append: true, Rate: rate, RateLevels: lv, PCRD: rate%2 == 0}}
+					c05Eval(c, k, 0, "rate-at-or-above-ladder-top")
+				}
+			}
+		}
+	}
+	for nl := 2; nl <= 6; nl++ {
+		for _, rate := range []int{1, 5, 20, 100} {
+			for _, wh := range [][2]int{{32, 32}, {80, 60}, {5, 70}} {
+				k := c05Case{W: wh[0], H: wh[1], BA: 16, BS: 12, SPP: []int{1, 3}[nl%2], PR: 0, Frames: 1, Syntax: []int{90, 92}[rate%2],
+					Par: c05Par{NumLevels: 4, NumLayers: nl, AllowMCT: true, Append: true, Rate: rate, RateLevels: ladder, PCRD: nl%2 == 0, Prog: nl % 5}}
+				c05Eval(c, k, 0, "explicit-layers-below-ladder")
+			}
+		}
+	}
 	n := 500
 	maxW, maxH := 40, 80
 	if c.Thorough() {
